@@ -4,6 +4,7 @@
 // followed by NUL (as the local-part tests call it).
 #include "../harness/rc_glue.hpp"
 #include "../harness/gen.hpp"
+#include "../harness/lib.hpp"
 
 using namespace vf;
 extern "C" const vapi dflt_api;
@@ -49,6 +50,14 @@ static std::optional<Failure> check_one(Run &R, int mode, const Bytes &b) {
                           (want ? "valid" : "invalid") + ", is_" + ref::MODE_NAME[mode] + "_local returned " + std::to_string(rcs[t])};
             return f;
         }
+    }
+    if (b.size() >= 1 && b.size() <= 64) {   // the same verdict when the local part stands in an address (split at the last '@'; the domain part must not matter)
+        static const char *DOMS[] = {"@d.com", "@[1.2.3.4]", "@d.com", "@[IPv6:2001:db8::1]", "@sub.example.org", "@d.com"};
+        Bytes dom = DOMS[hashs(b, 5) % 6];
+        v_outcome o = email_direct(A, TB, mode, b + dom, 0); R.eval();
+        if ((o.rc == 0) != want)
+            return Failure{want ? "address-rejects-valid-local" : "address-accepts-invalid-local", mkcase(mode, b).str(),
+                           std::string("is_") + ref::MODE_NAME[mode] + "_email('" + show(b) + dom + "', TLD off) -> " + outcome_str(o) + " but the local part is " + (want ? "valid" : "invalid") + " (reference and is_" + ref::MODE_NAME[mode] + "_local agree)"};
     }
     if (rcs[0] != rcs[1]) // same string, different terminator: verdict and code must not depend on what follows `end`
         return Failure{"terminator-dependent", mkcase(mode, b).str(), "return code differs between '@' and NUL terminator: " + std::to_string(rcs[0]) + " vs " + std::to_string(rcs[1])};
